@@ -45,6 +45,10 @@ def faults_for(case):
         out.append({"fault": "missing_rule", "pos": i})
     for i in range(len([d for d in case["params"]])):
         out.append({"fault": "missing_value", "pos": i})
+    if len(case["states"]) >= 2 and not case.get("discrete") and kind in ("MS", "SS", "DC"):
+        # a state without a rule while der() of ANOTHER state is requested (a der() call must not "complete" the model)
+        for i in range(len(case["states"])):
+            out.append({"fault": "missing_rule_der_probe", "pos": i})
     out += [{"fault": f} for f in ("no_method", "no_solver", "signal_objective", "nonscalar_objective",
                                    "set_value_nonparam", "set_initial_param", "set_initial_unknown",
                                    "bad_grid_constraint", "bad_grid_sample", "foreign_symbol_constraint",
@@ -78,7 +82,7 @@ def ispec_coq(case, f):
     ns, npar = len(case["states"]), len(case["params"])
     b = lambda l: "[" + "; ".join("true" if x else "false" for x in l) + "]"
     fl = f.get("fault") if f else None
-    rule = [not (fl == "missing_rule" and f["pos"] == i) for i in range(ns)]
+    rule = [not (fl in ("missing_rule", "missing_rule_der_probe") and f["pos"] == i) for i in range(ns)]
     val = [not (fl == "missing_value" and f["pos"] == i) for i in range(npar)]
     if fl == "missing_value_clone":
         # the multi-stage OCP has one parameter instance per clone
@@ -204,7 +208,7 @@ def build_with_fault(c, rockit, f):
     """build_rockit with the declaration-level faults injected"""
     import casadi as ca
     fl = f.get("fault") if f else None
-    skip_der = f["pos"] if fl == "missing_rule" else None
+    skip_der = f["pos"] if fl in ("missing_rule", "missing_rule_der_probe") else None
     skip_val = f["pos"] if fl == "missing_value" else None
     # use the normal builder, intercepting set_der / set_value by position
     orig_state, orig_param = rockit.Ocp.set_der, rockit.Ocp.set_value
@@ -241,6 +245,9 @@ def build_with_fault(c, rockit, f):
         ocp.add_objective(x0)
     elif fl == "nonscalar_objective":
         ocp.add_objective(ca.vertcat(ocp.at_tf(x0), ocp.at_t0(x0)))
+    elif fl == "missing_rule_der_probe":
+        xs = B.S["x"]
+        ocp.subject_to(ocp.der(xs[(f["pos"] + 1) % len(xs)]) <= 1000)
     elif fl == "set_value_nonparam":
         ocp.set_value(B.objs["x"][0], 1)
     elif fl == "set_initial_param":
